@@ -265,6 +265,8 @@ pub struct Imp {
     cache: Vec<(u32, usize, Vec<u8>)>,
     pub tmpdir: String,
     pub tmpn: u64,
+    /// reuse the CPU object across `S` commands when the memory size allows
+    pub reuse: bool,
 }
 
 fn load_regs(c: &mut CPU, s: &St) {
@@ -370,7 +372,7 @@ pub fn state_reply(c: &CPU, cyc: u32) -> String {
 
 impl Imp {
     pub fn new(tmpdir: &str) -> Imp {
-        Imp { cpu: CPU::new(0), base: vec![], cache: vec![], tmpdir: tmpdir.to_string(), tmpn: 0 }
+        Imp { cpu: CPU::new(0), base: vec![], cache: vec![], tmpdir: tmpdir.to_string(), tmpn: 0, reuse: true }
     }
 
     fn image(&mut self, seed: u32, len: usize) -> Vec<u8> {
@@ -444,6 +446,11 @@ impl Imp {
                 };
                 format!("{} {:04X}", state_reply(&self.cpu, 0), got)
             }
+            Cmd::S(s) if self.reuse && self.cpu.bus.verif_mem().len() == s.top as usize + 1 => {
+                // keep the CPU object: anything the implementation carries from one call to the next
+                // outside the modelled state then shows up as a disagreement
+                self.exec(&Cmd::SR(s.clone()))
+            }
             Cmd::S(s) => {
                 let len = s.top as usize + 1;
                 let mut img = self.image(s.seed, len);
@@ -470,7 +477,11 @@ impl Imp {
             Cmd::SR(s) => {
                 let len = s.top as usize + 1;
                 if self.cpu.bus.verif_mem().len() != len {
-                    return self.exec(&Cmd::S(s.clone()));
+                    let keep = self.reuse;
+                    self.reuse = false;
+                    let r = self.exec(&Cmd::S(s.clone()));
+                    self.reuse = keep;
+                    return r;
                 }
                 let mut img = self.image(s.seed, len);
                 for (a, b) in &s.ovr {
